@@ -530,10 +530,9 @@ def chk_toy(ci, d, z, comp):
     n = cv[5]
     try:
         sig = ms.signature_for_message_hash(d, z, comp)
-    except TypeError:
-        # Generator.sign_with_recid walked k += 1 onto a multiple of n (k*G = infinity): only possible on curves with a
-        # handful of points; the model predicts the same TypeError (correspondence), and it is C01's subject
-        return None
+    except Exception as e:
+        # since /repo de8ed07 the retry loop of sign_with_recid wraps from n back to 1: signing must not raise any more
+        return {"kind": "toy-sign-raises", "detail": "%s: %s" % (type(e).__name__, e)}
     try:
         q, c = ms.pair_for_message_hash(sig, z)
         Q = d * g
